@@ -42,6 +42,25 @@ KNOWN_FINDINGS = [
 ]
 
 
+MANIFEST = {
+    "text": "The full statement `enforces` (for all clusters, policies and flows the installed rules accept a new connection iff "
+            "the Kubernetes NetworkPolicy semantics allow it) is stated in Coq over two executable models - galaxy's compiler + "
+            "packet walk (Model/Policy.v, Netfilter.v) and a reference semantics written from the NetworkPolicy API "
+            "(Model/K8sPolicy.v) - and is REFUTED by proof: enforces_refuted, with six independent witnesses "
+            "(enforces_refuted_podsel_all_ns, _nspod_ignores_ns, _empty_peers, _merged_except, _cross_talk, _egress_shortcut; "
+            "refutation_verdicts gives both verdicts of each). Each witness is reproduced on the real PolicyManager and recorded "
+            "as an open known finding (K6a-e, K6g). The positive fragment (enforces_partial, DESIGN.md appendix D) is NOT proved; "
+            "on everything explored the check decides the property differentially: the Coq packet walk over the rules the REAL "
+            "code installed is compared with the Coq reference for all generated flows, and every disagreement must be explained "
+            "by a combination of the six recorded divergences (Corr/C16c.v classify), otherwise it is a VIOLATION with the "
+            "cluster/flow as replay.",
+    "note": "trusted: Coq kernel (no axioms); strict iptables/ipset fakes (semantics checked against real iptables 1.8.9 in a netns; "
+            "ipset by man page); numeric TCP/UDP ports and matchLabels selectors only; the agreement outside the six divergence "
+            "classes is validated by generated cases, not by a theorem - the claim level is the refutation (proved) plus a "
+            "differential check",
+}
+
+
 # ---------------------------------------------------------------------------- helpers
 def ip2s(n):
     return "%d.%d.%d.%d" % (n >> 24 & 255, n >> 16 & 255, n >> 8 & 255, n & 255)
